@@ -149,6 +149,13 @@ def main() -> int:
 
     if args.replay:
         payload = json.loads(Path(args.replay).read_text())
+        if "input" not in payload:
+            # a `no-failing-input-found` replay names what no longer checks (theorem module / correspondence stream and the
+            # disagreements seen); there is no single input to re-run — re-run the check itself
+            print("this replay file names the proof obligation / correspondence that did not check (no failing input was found): "
+                  + "; ".join(str(d.get("what", d))[:160] for d in (payload.get("disagreements") or [])[:3])
+                  + f" — re-run `check.py {prop} --tier {payload.get('tier', 'quick')}` to see whether it checks now")
+            return 2
         mod = importlib.import_module(payload.get("stream_module") or spec["streams"][0][0])
         if not hasattr(mod, "replay"):
             print("this stream has no replayer; the replay file holds the complete failing input")
